@@ -258,6 +258,7 @@ def execute(case, validate=False):
         app = validator(w)
     abort = case.get('abort')
     body = []
+    it = None
     try:
         it = app(env, start_response)
         TR.append(['ret'])
@@ -273,13 +274,17 @@ def execute(case, validate=False):
             body.append(c)
             n += 1
         # PEP 3333: the server calls close() on the iterable, if it has one, however the request ended
+        # (case['noclose']: a consumer that exhausts the body and never calls close(), which is what spyne's own
+        #  Django / Pyramid wrappers do with b''.join(response))
         close = getattr(it, 'close', None)
-        if close is not None:
+        if close is not None and (validate or not (case.get('noclose') and abort is None)):
             close()
     except AssertionError as e:
         if not validate:
             raise
         SIDE['validator_error'] = str(e)[:300]
+        if hasattr(it, 'closed'):
+            it.closed = True       # keep the validator's __del__ quiet, the complaint is recorded
     except Exception as e:
         TR.append(['crash', crash_name(e)])
         SIDE['crash_detail'] = '%s: %s' % (type(e).__name__, str(e)[:200])
@@ -538,12 +543,15 @@ def measure_facts():
     c = mkcase('soap', 'echo', {'s': 'hi'}, cl='abc')
     tr = run(c)
     f['clParse'] = 'crash' if any(e[0] == 'crash' for e in tr) else 'fault'
+    f['soapBadLengthClass'] = next((e[2] for e in tr if e[0] == 'sr' and e[2]), 'client')
     WITNESS['clParse'] = c
     c1, c2 = mkcase('json', 'gen', {'n': 0}), mkcase('json', 'gen', {'n': 2, 'mode': 'raises:client'})
     f['genGuard'] = not any(e[0] == 'crash' for e in run(c1) + run(c2))
     WITNESS['genGuard'] = c1
     c = dict(mkcase('soap', 'echo', {'s': 'hi'}), cl='0', plan=[])
-    f['soapEmptyBodyFault'] = not any(e[0] == 'crash' for e in run(c))
+    tr = run(c)
+    f['soapEmptyBodyFault'] = not any(e[0] == 'crash' for e in tr)
+    f['soapEmptyBodyClass'] = next((e[2] for e in tr if e[0] == 'sr' and e[2]), 'client')
     WITNESS['soapEmptyBodyFault'] = c
     errs = [{'kind': 'wsdl', 'wsdl': k, 'proto': 'soap', 'cfg': dict(BASE_CFG), 'abort': None} for k in ('unavailable', 'buildError')]
     trs = [run(c) for c in errs]
@@ -560,6 +568,8 @@ def measure_facts():
     f['preRejectStatus'] = next((e[1] for e in tr if e[0] == 'sr'), 0)
     tr = run(mkcase('http', 'echo', {'s': 'hi'}))
     f['okStatus'] = next((e[1] for e in tr if e[0] == 'sr'), 0)
+    tr = run(mkcase('json', 'gen', {'n': 2, 'mode': 'late'}))
+    f['lateErrorKeepsOkStatus'] = next((e[1] for e in tr if e[0] == 'sr'), 0) == f['okStatus']
     return f
 
 
@@ -592,6 +602,8 @@ def facts13 : Facts13 where
   clParse := .%s
   genGuard := %s
   soapEmptyBodyFault := %s
+  soapBadLengthClass := .%s
+  soapEmptyBodyClass := .%s
   wsdlErrBytes := %s
   wsdlErrClosed := %s
   statusPlain := fun fc => match fc with
@@ -603,11 +615,12 @@ def facts13 : Facts13 where
   wsdlUnavailableStatus := %d
   wsdlErrorStatus := %d
   okStatus := %d
+  lateErrorKeepsOkStatus := %s
 
 end SpyneModel.Generated
 ''' % (f['closeTiming'], f['wsdlCloseTiming'], f['joinKind'], f['clParse'], b(f['genGuard']), b(f['soapEmptyBodyFault']),
-       b(f['wsdlErrBytes']), b(f['wsdlErrClosed']), tab(f['statusPlain']), tab(f['statusSoap']), f['preRejectStatus'],
-       f['wsdlOkStatus'], f['wsdlUnavailableStatus'], f['wsdlErrorStatus'], f['okStatus'])
+       f['soapBadLengthClass'], f['soapEmptyBodyClass'], b(f['wsdlErrBytes']), b(f['wsdlErrClosed']), tab(f['statusPlain']), tab(f['statusSoap']), f['preRejectStatus'],
+       f['wsdlOkStatus'], f['wsdlUnavailableStatus'], f['wsdlErrorStatus'], f['okStatus'], b(f['lateErrorKeepsOkStatus']))
 
 
 # ------------------------------------------------------------------------------------ generators
@@ -666,6 +679,9 @@ def gen_cases(ctx):
                 for abort in (None, 0, 1, 2):
                     add({'kind': 'wsdl', 'wsdl': k, 'proto': proto, 'cfg': dict(BASE_CFG, chunked=chunked), 'abort': abort,
                          'wsdl_by_path': abort == 2}, 'wsdl')
+                if True:
+                    add({'kind': 'wsdl', 'wsdl': k, 'proto': proto, 'cfg': dict(BASE_CFG, chunked=chunked), 'abort': None,
+                         'noclose': True}, 'wsdl')
     # -- every outcome class x protocol x chunked x abort point, generous limits
     for proto in ('soap', 'json', 'http'):
         for chunked in (True, False):
@@ -676,6 +692,8 @@ def gen_cases(ctx):
                     if abort in (2, 5) and m != 'raw':
                         continue
                     add(mkcase(proto, m, a, cfg=dict(BASE_CFG, chunked=chunked), abort=abort), 'outcomes')
+                    if abort is None:
+                        add(mkcase(proto, m, a, cfg=dict(BASE_CFG, chunked=chunked), abort=None, noclose=True), 'outcomes')
     # -- Soap11 refusing verb / content type before reading
     for chunked in (True, False):
         add(dict(mkcase('soap', 'echo', {'s': 'hi'}, cfg=dict(BASE_CFG, chunked=chunked)), verb='GET'), 'prereject')
@@ -715,10 +733,10 @@ def gen_cases(ctx):
                 add(mkcase(proto, 'echo', {'s': 'hi'}, cfg={'chunked': True, 'max': doc_len + extra, 'block': 16}, cl=cl,
                            plan=filelike(doc_len + extra + 7, 16)), 'padded-overlong')
     # -- seeded random
-    n = 6000 if ctx.thorough else 900
+    n = 12000 if ctx.thorough else 2500
     for _ in range(n):
         proto = rng.choice(['json', 'json', 'soap', 'http'])
-        m, a = rng.choice(CALLS)
+        m, a = rng.choice(CALLS + [c for c in CALLS if c[0] == 'raw'])
         if proto == 'http' and m == '#junk':
             m = '#unknown'
         if m == 'raw' and rng.random() < 0.7:
@@ -739,6 +757,8 @@ def gen_cases(ctx):
                    abort=rng.choice([None, None, None, 0, 1, 2, 3, 6]))
         if proto == 'soap' and rng.random() < 0.05:
             c['verb'] = rng.choice(['GET', 'PUT'])
+        if c['abort'] is None and rng.random() < 0.3:
+            c['noclose'] = True
         add(c, 'random')
     return cases
 
@@ -779,7 +799,7 @@ def run(ctx):
         ctx.cov['traces_validated_against_impl'] += 1
         ctx.hit('tag:' + case['tag'])
         ctx.hit('proto:' + case['proto'])
-        ctx.hit('abort:' + ('none' if case.get('abort') is None else str(min(case['abort'], 3))))
+        ctx.hit('abort:' + (('none-noclose' if case.get('noclose') else 'none') if case.get('abort') is None else str(min(case['abort'], 3))))
         for e in tr:
             if e[0] == 'sr':
                 ctx.hit('status:%s' % e[1]); ctx.hit('fault:%s' % e[2]); ctx.hit('content-length:' + ('sent' if e[3] is not None else 'absent'))
@@ -807,7 +827,7 @@ def run(ctx):
                     ctx.hit('t3-fail:validator')
                     ctx.finding('wsgiref-validator:' + re.sub(r'[^A-Za-z ]', '', side2['validator_error'])[:40].strip().replace(' ', '-'),
                                 'wsgiref.validate: ' + side2['validator_error'], {'case': case, 'impl_trace': tr2, 'validate': True})
-                elif tr2 != tr:
+                elif tr2 != tr and not case.get('noclose'):
                     ctx.finding('nondeterministic-trace', 'the same request gives two traces', {'case': case, 'impl_trace': tr, 'second': tr2})
     answers = ctx.model([q for q, _, _ in Q])
     for (q, tr, case), mod in zip(Q, answers):
@@ -862,7 +882,8 @@ def replay(ctx, obj):
         print('T3    : the property holds on this case')
     try:
         f = measure_facts()
-        ctx.write_generated('Facts13.lean', facts_lean(f))
+        if ctx.write_generated('Facts13.lean', facts_lean(f)):
+            core.sh(['lake', 'build', 'Driver.C13'], cwd=core.LEAN, timeout=1200)
         q = model_query(case, side, reference(case))
         print('model :', json.dumps(ctx.model([q])[0]['trace']))
     except Exception as e:
